@@ -223,7 +223,8 @@ int sut_apply(mpq_QSprob p, const Op &o, const Model &before) {
     sense.push_back(0);
     QArr v((int)val.size()), r(nr), g(nr);
     for (size_t t = 0; t < val.size(); t++) v.set((int)t, val[t]);
-    for (int t = 0; t < nr; t++) { r.set(t, rhs[t]); g.set(t, rng[t]); }
+    // the range entry of a non-ranged row is ignored by the ranged-row calls: pass something non-zero there
+    for (int t = 0; t < nr; t++) { r.set(t, rhs[t]); g.set(t, sense[t] == 'R' ? rng[t] : Q(5 + t, 2)); }
     switch (variant) {
     case 0: return mpq_QSadd_row(p, cnt[0], ind.data(), v.v, r.v, sense[0], names[0]);
     case 1: return mpq_QSadd_rows(p, nr, cnt.data(), beg.data(), ind.data(), v.v, r.v, sense.data(), names.data());
